@@ -184,7 +184,7 @@ B_LLUDP = ["none", "zero", "empty", "false", "true", "one", "obj", "raise_exc", 
            "send_orig", "send_orig_twice", "send_orig_true", "send_new", "mutate", "touch"]
 B_RLV = ["none", "true", "raise_exc", "false"]
 B_SUB = ["absent", "noop", "raise", "pred_raise", "pred_false", "take_waitfor", "take_async", "observe_async", "unsub_self",
-         "take_waitfor_pred_raise", "take_async_pred_raise", "waitfor_abandoned"]
+         "take_waitfor_pred_raise", "take_async_pred_raise", "waitfor_abandoned", "async_left_by_exception"]
 HOOKS = (("packet", B_PACKET), ("lludp", B_LLUDP), ("rlv", B_RLV), ("session_sub", B_SUB), ("region_sub", B_SUB))
 DEFAULT = {"packet": "none", "lludp": "none", "rlv": "none", "session_sub": "absent", "region_sub": "absent"}
 MSG_KINDS = ["v2s_rel", "s2v_unrel", "v2s_cmd", "s2v_rlv1", "s2v_rlv3", "s2v_rel_acks", "s2v_rlv0", "v2s_cmd_bad", "v2s_cmd_ok", "v2s_truncated",
@@ -428,6 +428,16 @@ def run_program(program):
                         ensure_loop().run_until_complete(asyncio.sleep(0.01))
                         if sum(len(handler.register(n_)) for n_ in names) <= n0:
                             break
+                elif b == "async_left_by_exception":
+                    # a claimant listened inside a `with subscribe_async(...)` block and left it through an exception (a timeout while
+                    # waiting): it is gone, later messages are nobody's but the wire's
+                    async def _leave(handler=handler):
+                        try:
+                            with handler.subscribe_async(names, take=True) as get_msg:
+                                await asyncio.wait_for(get_msg(), 0.005)
+                        except asyncio.TimeoutError:
+                            pass
+                    ensure_loop().run_until_complete(_leave())
                 elif b == "take_waitfor":
                     keep.append(handler.wait_for(names, take=True))
                 elif b in ("take_async", "observe_async"):
